@@ -441,7 +441,11 @@ def oracle(case, io, reply):
             fails.append('labels: number labels are %r' % labels)
     elif len(set(labels)) != len(labels):
         dup = sorted({l for l in labels if labels.count(l) > 1})
-        fails.append('labels: alpha labels are not pairwise distinct: %r (duplicates %r) [suffixed label equals another label]' % (labels, dup))
+        # the recorded finding has a precise shape: a duplicated label L = B + letter next to another label B + other letter
+        # (B was disambiguated with suffix letters and one of the results equals a label that occurs on its own)
+        collision = all(l[-1:].islower() and any(m != l and m[:-1] == l[:-1] and m[-1:].islower() for m in labels) for l in dup)
+        fails.append('labels: alpha labels are not pairwise distinct: %r (duplicates %r)%s' % (
+            labels, dup, ' [suffixed label equals another label]' if collision else ''))
     for g, plain in zip(got, io['plain']):
         e = by_key[g[0].lower()]
         t = tmpls.get(e['key'].lower())
@@ -564,7 +568,7 @@ def gen_ties(rng):
     """Databases whose entries tie on the (author, year, title) sorting key, cited in an order unrelated to the order of their keys."""
     n = rng.randint(2, 6)
     keys = rng.sample(['zeta', 'mid', 'alpha', 'Beta', 'k1', 'K0', 'omega', 'a'], n)
-    authors = rng.sample(['John Smith', 'Ann Lee', 'john smith'], rng.randint(1, 2))
+    authors = rng.sample(['John Smith', 'Ann Lee', 'john smith', 'Jim Smirnov', 'Ann Smiley'], rng.randint(1, 3))
     entries = []
     for k in keys:
         fs = [['title', rng.choice(['Same title', 'Same title', 'Other'])], ['year', rng.choice(['2001', '2001', '1999'])]]
@@ -577,7 +581,9 @@ def gen_ties(rng):
     cites = keys[:]
     rng.shuffle(cites)
     case = {'op': 'pystyle', 'entries': entries, 'citations': cites if rng.random() < 0.8 else ['*'], 'min_crossrefs': 2,
-            'style': rng.choice(['plain', 'alpha', 'unsrt', 'unsrtalpha']), 'sorting_style': 'author_year_title'}
+            'style': rng.choice(['plain', 'alpha', 'unsrt', 'unsrtalpha'])}
+    if rng.random() < 0.6:
+        case['sorting_style'] = 'author_year_title'
     if rng.random() < 0.5:
         case['label_style'] = rng.choice(['number', 'alpha'])
     return case
